@@ -64,9 +64,9 @@ FLOORS = {
               "counters": {"together_computes": 5200, "results_compared": 14500, "built_alone": 3600,
                            "alone_vs_isolated_compared": 3600, "shared_keys_compared": 5500},
               "max_skipped_fraction": 0.15},
-    "thorough": {"evaluations": 18000, "distinct_nontrivial": 13000,
-                 "counters": {"together_computes": 70000, "results_compared": 190000, "built_alone": 48000,
-                              "alone_vs_isolated_compared": 48000, "shared_keys_compared": 70000},
+    "thorough": {"evaluations": 9000, "distinct_nontrivial": 6500,
+                 "counters": {"together_computes": 34000, "results_compared": 95000, "built_alone": 24000,
+                              "alone_vs_isolated_compared": 24000, "shared_keys_compared": 35000},
                  "max_skipped_fraction": 0.15},
 }
 EXHAUSTIVE_SPACE = None
@@ -218,7 +218,7 @@ def _progs(kind, fam, rng):
 
 def cases(tier, seed):
     rng = random.Random(seed * 7727 + 13)
-    n = 3000 if tier == "quick" else 40000
+    n = 3000 if tier == "quick" else 20000
     fams = [f for f, w in FAMILY_WEIGHTS for _ in range(w)]
     for _ in range(n):
         fam = rng.choice(fams)
